@@ -60,17 +60,17 @@ def genRmInfo : Gen (Nat × Nat) := do
 def fitMain (room : Nat) : Nat :=
   if room ≤ 2 then 0 else if room ≤ 257 then room - 2 else if room ≤ 260 then 255 else room - 5
 
-/-- a record of total length ≤ `target` (and as close to it as the format allows; `target ≥ 24`) -/
-def genRecord (target : Nat) (plain : Bool := false) : Gen WalRecord := do
+/-- a record of total length ≤ `target` (and as close to it as the format allows; `target ≥ 24`);
+`noDbase`: stay outside the known-finding class C17-dbase-ops (no Database record) -/
+def genRecord (target : Nat) (noDbase : Bool := false) : Gen WalRecord := do
   let (rmid, info) ← genRmInfo
-  -- `plain`: stay outside the known-finding classes (no block references, no Database record)
-  let rmid := if plain && rmid == 4 then 5 else rmid
+  let rmid := if noDbase && rmid == 4 then 5 else rmid
   let xid ← match ← Gen.below 6 with
     | 0 => pure 0
     | 1 => Gen.below (2 ^ 32)
     | _ => Gen.range 700 704
   let room := target - 24
-  let k ← if room < 40 || plain then pure 0 else match ← Gen.below 4 with
+  let k ← if room < 40 then pure 0 else match ← Gen.below 4 with
     | 0 => pure 0
     | _ => Gen.range 1 4
   let blocks ← genBlocks k (room / (2 * max k 1) )
@@ -92,7 +92,9 @@ structure SegParams where
   maxPages : Nat
   allowKf : Bool
 
-/-- records filling about `pages` pages; the total length of each is chosen from the page geometry -/
+/-- records filling about `pages` pages; the total length of each is chosen from the page geometry
+(records whose header straddles a page end and cross-page records with block references included: repaired by
+fixes/wal/04, 05).  `allowKf` = Database records (known finding C17-dbase-ops) may occur. -/
 def genRecords (pre : Nat) (pages : Nat) (allowKf : Bool) : Gen (List WalRecord) := do
   -- a third of the segments are dense: small records only (plus the page-geometry choices)
   let dense ← Gen.prob 1 3
@@ -112,8 +114,8 @@ def genRecords (pre : Nat) (pages : Nat) (allowKf : Bool) : Gen (List WalRecord)
         let want ← match pick with
           | 0 | 1 => pure room                       -- end exactly at the page end
           | 2 => pure (room + capN)                  -- end exactly at the end of the next page
-          | 3 => pure (if allowKf then room - 8 else room)   -- leave 8 bytes: next header straddles
-          | 4 => pure (if allowKf then room - 16 else room)
+          | 3 => pure (room - 8)                     -- leave 8 bytes: next header straddles
+          | 4 => pure (room - 16)
           | 5 => pure (room - 24)                    -- leave exactly one header's worth
           | 6 => if dense then Gen.range 24 120 else Gen.range 8200 16000   -- spans two or three pages
           | 7 => if dense then Gen.oneOf [24, 27, 32, 40] else Gen.oneOf [16000, 15999, 24, 27, 281, 282, 285, 8168, 8152]
@@ -121,21 +123,11 @@ def genRecords (pre : Nat) (pages : Nat) (allowKf : Bool) : Gen (List WalRecord)
           | 10 => pure 24
           | _ => Gen.range 24 200
         let want := min (min (max want 24) 16000) left
-        -- outside the known-finding classes a record that crosses a page end carries no block reference
-        let r ← genRecord want (!allowKf && decide (want > room))
+        let r ← genRecord want (!allowKf)
         let r := if !allowKf && r.rmid == 4 then { r with rmid := 6 } else r
-        -- without the known-finding classes: never leave a start position whose header would straddle
-        let next := o + align8 r.totLen
-        let r ← if !allowKf && !headerOnOnePage next && next < limit then
-            -- stretch or shrink is format dependent; simplest: drop to a 24-byte record (always fits the grid)
-            pure { r with blocks := [], origin := none, topXid := none, mainData := [] }
-          else pure r
-        let next := o + align8 r.totLen
-        if !allowKf && !headerOnOnePage next && next < limit then stop := true
-        else
-          out := out.push r
-          o := next
-          if ← Gen.prob 1 (if dense then 400 else 40) then stop := true
+        out := out.push r
+        o := o + align8 r.totLen
+        if ← Gen.prob 1 (if dense then 400 else 40) then stop := true
   return out.toList
 
 def genSegment (maxPages : Nat) (allowKf : Bool) : Gen WalSegment := do
